@@ -28,6 +28,12 @@ func (c *connLimiter) take() bool {
 	return false
 }
 
+// occupy marks n slots as taken (connections admitted before the limiter existed).
+func (c *connLimiter) occupy(n int32) {
+	atomic.AddInt32(&c.now, n)
+	atomic.AddInt32(&c.tmp, n)
+}
+
 func (c *connLimiter) release() {
 	atomic.AddInt32(&c.now, -1)
 	atomic.AddInt32(&c.tmp, -1)
